@@ -984,7 +984,8 @@ def gauss_closure_and_bm(ctx):
                 roots = [v.root(a) for a in t["args"]]
                 if sum(1 for r in roots if r.kind == "call" and any(r.base[1] == rb for rb, _ in rs)) >= 2:
                     return gauss, cb, (bi, t), x, rs
-    raise RoleLost("bm: callee inside the Gaussian routine's closure that receives two read-site values")
+    from ..roles import calls_body
+    raise RoleLost("bm: callee inside the Gaussian routine's closure that receives two read-site values", wanted=calls_body(R, read))
 
 
 def gaussian_pair_count(ctx, gauss):
@@ -2232,6 +2233,8 @@ def run_c20b(ctx, RID="C20-b", only=None):
 
             def walk(x):
                 if isinstance(x, dict):
+                    if x.get("k") == "match" and str(x.get("source", "")).startswith("ForLoopDesugar"):
+                        names.append("for")
                     if x.get("k") == "call" and x.get("callee"):
                         names.append(x["callee"].get("name"))
                     for v_ in x.values():
@@ -2241,7 +2244,7 @@ def run_c20b(ctx, RID="C20-b", only=None):
                         walk(v_)
             walk(f.thir[bb.path]["body"])
             bad = [n for n in names if n in ("rev", "rfold", "next_back", "rposition", "sorted", "chunks", "step_by", "tree_fold1", "tree_reduce")]
-            ctx.ob(RID, "%s accumulates in ascending index order (pipeline %s)" % (norm_path(bb.path), [n for n in names if n]), not bad and "fold" in names,
+            ctx.ob(RID, "%s accumulates in ascending index order (pipeline %s)" % (norm_path(bb.path), [n for n in names if n]), not bad and ("fold" in names or "for" in names or "sum" in names),
                    bb.path, "forward-accumulation", detail="adapters %s" % bad)
     one("dot", "dot", dot)
 
